@@ -2036,12 +2036,30 @@ theorem paramsString_head (p : Ty × Ident) (ps : List (Ty × Ident)) :
   | nil => exact ⟨c, rest ++ ([32] ++ identString i), by simp [paramsString, h], h41⟩
   | cons q qs => exact ⟨c, rest ++ ([32] ++ identString i ++ sComma ++ paramsString (q :: qs)), by simp [paramsString, h], h41⟩
 
-def headerOK (f : Func) : Prop := f.name ≠ [] ∧ ∀ p ∈ f.params, identOK p.2
+def headerOK (f : Func) : Prop :=
+  f.name ≠ [] ∧ (∀ p ∈ f.params, identOK p.2) ∧ (∀ i ∈ f.lead, i < kLead.length) ∧
+    ∀ k ∈ kLead, TyParse.stripPrefix (k ++ [32]) (headerRest f) = none
 
-theorem readHeader_print (f : Func) (h : headerOK f) : readHeader (headerString f) = some (f.ret, f.name, f.params) := by
-  obtain ⟨hn, hp⟩ := h
-  unfold headerString readHeader
-  simp only [List.append_assoc, TyParse.stripPrefix_append, globalName_eq, List.cons_append, List.singleton_append, List.nil_append]
+/-- the keywords of a function header are pairwise divergent: the reader of the keyword list finds each of them (decided on the list) -/
+theorem kLead_diverge : keysDiverge kLead = true := by decide +kernel
+
+/-- the header from the return type on, read back -/
+theorem readHeaderRest_print (f : Func) (hn : f.name ≠ []) (hp : ∀ p ∈ f.params, identOK p.2) (lead : List Nat) :
+    (match TyParse.parseTy (tyFuel (headerRest f)) (headerRest f) with
+     | some (rt, 32 :: 64 :: r1) =>
+       (match takeBody r1 with
+        | some (tok, 40 :: r2) =>
+          (match Enc.decodeIdentBody tok with
+           | .name n =>
+             if r2.head? == some 41 then (if r2 == sOpen then some (lead, rt, n, []) else none)
+             else (match readParams (r2.length + 1) r2 with
+                   | some (ps, r3) => if r3 == sOpen then some (lead, rt, n, ps) else none
+                   | none => none)
+           | .id _ => none)
+        | _ => none)
+     | _ => none) = some (lead, f.ret, f.name, f.params) := by
+  unfold headerRest
+  simp only [List.append_assoc, globalName_eq, List.cons_append, List.singleton_append, List.nil_append]
   have hty : TyParse.parseTy (tyFuel (tyString f.ret ++ 32 :: 64 :: (nameBody f.name ++ 40 :: (paramsString f.params ++ sOpen))))
       (tyString f.ret ++ 32 :: 64 :: (nameBody f.name ++ 40 :: (paramsString f.params ++ sOpen)))
       = some (f.ret, 32 :: 64 :: (nameBody f.name ++ 40 :: (paramsString f.params ++ sOpen))) := by
@@ -2062,5 +2080,14 @@ theorem readHeader_print (f : Func) (h : headerOK f) : readHeader (headerString 
       have := paramsString_len (p :: ps); simp only [List.length_append] at this ⊢; omega)
     simp only [hd, Bool.false_eq_true, if_false, hr]
     simp
+
+theorem readHeader_print (f : Func) (h : headerOK f) : readHeader (headerString f) = some (f.lead, f.ret, f.name, f.params) := by
+  obtain ⟨hn, hp, hl, hrest⟩ := h
+  unfold headerString readHeader
+  simp only [List.append_assoc, TyParse.stripPrefix_append]
+  have hf := readFlags_print kLead (headerRest f) kLead_diverge hrest f.lead ((flagsString kLead f.lead ++ headerRest f).length + 1) hl (by
+    have := flagsString_len kLead f.lead; simp only [List.length_append]; omega)
+  simp only [hf]
+  exact readHeaderRest_print f hn hp f.lead
 
 end Llir.Core3
